@@ -263,6 +263,16 @@ def char_at(t, i):
     return z3.SubString(t, alg.lift(i), z3.IntVal(1))
 
 
+class _Match:
+    """a successful match of a symbolic string: truthy; its groups / spans are not modelled"""
+
+    def __bool__(self):
+        return True
+
+    def __getattr__(self, name):
+        raise Unsupported("re.Match.%s of a symbolic string" % name)
+
+
 class _ReModel:
     """`re` as seen by the modules under verification: calls on real strings go to the real module;
     on symbolic strings two single-character-class patterns are modelled point-wise:
@@ -295,7 +305,11 @@ class _ReModel:
         cur().use("re.match on a single-character class")
         t = sval(s)
         cls = _class_re(m.group(1))
-        return SBool(z3.And(z3.Length(t) >= 1, z3.InRe(char_at(t, 0), cls)))
+        # re.match returns a Match object or None: decide now, so that `if re.match(..)`,
+        # `re.match(..) is not None` and `bool(re.match(..))` all see the same answer
+        if bool(SBool(z3.And(z3.Length(t) >= 1, z3.InRe(char_at(t, 0), cls)))):
+            return _Match()
+        return None
 
     def sub(self, pattern, repl, s, count=0, flags=0):
         if not has_symbolic(s):
